@@ -85,6 +85,10 @@ class ParseTrailers(Contract):
         st = st or c.st
         return u_pos(c, c.a["unreader"], st) - c.a["data"].length()
 
+    def ghost_axioms(self, c):
+        d = self.d0(c)
+        return [f2_axiom(d), fc_def(d, N)]
+
     def pre(self, c):
         u = c.a["unreader"]
         d = self.d0(c)
@@ -93,8 +97,6 @@ class ParseTrailers(Contract):
         return list(RI(c, u)) + [
             ("data-holds-bytes-just-before-unreader-position", io_adjacent(c.a["data"], u_pos(c, u))),
             ("unreader-buffer-empty", u_buf(c, u).length() == 0),
-            ("ghost:f2crlf-definition", f2_axiom(d)),
-            ("ghost:fcrlf-definition", fc_def(d, N)),
             ("unsafe:strip_header_spaces-off", Not(c.ex.truth(c.field(cfg, "strip_header_spaces"), c.st))),
             ("unsafe:permit_obsolete_folding-off", Not(c.ex.truth(c.field(cfg, "permit_obsolete_folding"), c.st)))]
 
@@ -186,12 +188,14 @@ class ParseChunkSize(Contract):
             return pos
         return pos - c.a["data"].length()
 
+    def ghost_axioms(self, c):
+        q = self.q0(c)
+        return [fc_def(q, N), fc_axiom(q), hx_axiom(q), ows_axiom(hexend(q)), f2_axiom(fcrlf(q) + 2)]
+
     def pre(self, c):
         u = c.a["unreader"]
         q = self.q0(c)
-        out = list(RI(c, u)) + [("ghost:fcrlf-definition", fc_def(q, N)), ("ghost:fcrlf-definition@q", fc_axiom(q)),
-                                ("ghost:hexend-definition", hx_axiom(q)), ("ghost:owsend-definition", ows_axiom(hexend(q))),
-                                ("ghost:f2crlf-definition", f2_axiom(fcrlf(q) + 2))]
+        out = list(RI(c, u))
         req = c.st.obj(c.a["self"]).fields["req"]
         cfg = c.st.obj(req).fields["cfg"]
         out += [("unsafe:strip_header_spaces-off", Not(c.ex.truth(c.field(cfg, "strip_header_spaces"), c.st))),
@@ -229,10 +233,12 @@ class ParseChunkSize(Contract):
         size, rest = c.result.items
         g = c.st.ghost
         w = rest.inner.single_win() if isinstance(rest, SOpt) else (rest.single_win() if isinstance(rest, SStr) else None)
+        g["last_size"] = size.t
         if w is not None:
-            g["chunk_ds"] = w.lo
+            ds = fcrlf(self.q0(c, c.old)) + 2       # payload starts right after the chunk header line
+            g["chunk_ds"] = ds
             g["chunk_size"] = size.t
-            g["y_pos"] = w.lo
+            g["y_pos"] = ds
 
     def post(self, c):
         u = c.a["unreader"]
@@ -288,3 +294,109 @@ def _q(L):
     pos = u_pos(_C(L), L.unreader, L.fentry)
     d = L.fentry.locals["data"]
     return pos if isinstance(d, SNone) else pos - d.length()
+
+
+# ======================================================================================================
+# parse_chunked (generator): every yielded piece is the next part of the current chunk's payload, in order
+# ======================================================================================================
+@contract("gunicorn.http.body:ChunkedReader.parse_chunked", props=("C01", "C06", "C07"))
+class ParseChunked(Contract):
+    """generator: `yield x` is a ghost event. Ghost state (set by the parse_chunk_size contract at its call sites):
+    chunk_ds (payload start), chunk_size (RFC size of the current chunk), y_pos (stream position up to which the payload
+    has been handed out). Obligations at every yield: the piece is T[y_pos : b) with b <= chunk_ds + chunk_size.
+    The call.pre obligations of parse_chunk_size then require: previous payload fully delivered, followed by CRLF, and the
+    next chunk header starting right after it. Frame assumption: nobody else touches the unreader between yields
+    (the generator owns it; discharged at the only consumer, ChunkedReader.read, which never touches it)."""
+
+    def cases(self, env):
+        st = base_state(env)
+        u = mk_unreader(env, st)
+        cfg = mk_cfg(env, st, strip_header_spaces=False, permit_obsolete_folding=False)
+        slf = mk_chunked_reader(env, st, u, cfg)
+        return [("gen", st, {"self": slf, "unreader": u}, {})]
+
+    def pre(self, c):
+        u = c.a["unreader"]
+        req = c.st.obj(c.a["self"]).fields["req"]
+        cfg = c.st.obj(req).fields["cfg"]
+        return list(RI(c, u)) + [
+            ("unsafe:strip_header_spaces-off", Not(c.ex.truth(c.field(cfg, "strip_header_spaces"), c.st))),
+            ("unsafe:permit_obsolete_folding-off", Not(c.ex.truth(c.field(cfg, "permit_obsolete_folding"), c.st)))]
+
+    def raises(self, c):
+        E = errs(c)
+        return [(E.InvalidChunkSize, None), (E.NoMoreData, None), (E.ChunkMissingTerminator, None)] + header_raises(c) + [oserror(c)]
+
+    def post(self, c):
+        g = c.st.ghost
+        return list(RI(c, c.a["unreader"])) + [("ends-only-after-a-last-chunk", g.get("last_size", iv(-1)) == 0)]
+
+    def yield_hook(self, c, v):
+        g = c.st.ghost
+        ex = c.ex
+        if "chunk_ds" not in g:
+            ex.oblige("yield.inside-a-chunk", "yield", c.st, FALSE)
+            return
+        tw = t_window(v)
+        if tw is None:
+            ex.oblige("yield.piece-is-a-stream-window", "yield", c.st, FALSE)
+            return
+        if tw[0] == "empty":
+            return
+        lo, hi = tw[1], tw[2]
+        end = g["chunk_ds"] + g["chunk_size"]
+        ex.oblige("yield.piece-continues-the-payload-in-order", "yield", c.st, Or(lo == hi, lo == g["y_pos"]))
+        ex.oblige("yield.piece-stays-inside-the-chunk", "yield", c.st, Or(lo == hi, And(lo >= g["chunk_ds"], hi <= end)))
+        g["y_pos"] = If(lo == hi, g["y_pos"], hi)
+
+    loops = {0: dict(anchor="while size > 0", cands=[
+        ("RI(unreader)", lambda L: RI_and(_C(L), L.unreader, L.st)),
+        ("unreader-buffer-empty", lambda L: Implies(L.size.t > 0, u_buf(_C(L), L.unreader, L.st).length() == 0)),
+        ("size>=0", lambda L: L.size.t >= 0),
+        ("rest-is-None-iff-size==0", lambda L: _opt(L.rest)[0] == (L.size.t > 0)),
+        ("rest==T[chunk_ds:pos)", lambda L: Implies(_opt(L.rest)[0], is_T(_opt(L.rest)[1], _g(L, "chunk_ds"), u_pos(_C(L), L.unreader, L.st)))),
+        ("size==chunk_size", lambda L: Implies(L.size.t > 0, L.size.t == _g(L, "chunk_size"))),
+        ("nothing-delivered-yet", lambda L: Implies(L.size.t > 0, _g(L, "y_pos") == _g(L, "chunk_ds"))),
+        ("pos>=chunk_ds", lambda L: Implies(L.size.t > 0, u_pos(_C(L), L.unreader, L.st) >= _g(L, "chunk_ds"))),
+        ("last_size==size", lambda L: _g(L, "last_size") == L.size.t),
+    ]), 1: dict(anchor="while size > len(rest)", cands=[
+        ("RI(unreader)", lambda L: RI_and(_C(L), L.unreader, L.st)),
+        ("unreader-buffer-empty", lambda L: u_buf(_C(L), L.unreader, L.st).length() == 0),
+        ("rest-not-None", lambda L: _opt(L.rest)[0]),
+        ("rest==T[y_pos:pos)", lambda L: is_T(_opt(L.rest)[1], _g(L, "y_pos"), u_pos(_C(L), L.unreader, L.st))),
+        ("size>0", lambda L: L.size.t > 0),
+        ("size==remaining", lambda L: L.size.t == _g(L, "chunk_ds") + _g(L, "chunk_size") - _g(L, "y_pos")),
+        ("y_pos-in-chunk", lambda L: And(_g(L, "y_pos") >= _g(L, "chunk_ds"), u_pos(_C(L), L.unreader, L.st) >= _g(L, "y_pos"))),
+        ("chunk-fixed", lambda L: And(_g(L, "chunk_ds") == _ge(L, "chunk_ds"), _g(L, "chunk_size") == _ge(L, "chunk_size"))),
+    ]), 2: dict(anchor="while len(rest) < 2", cands=[
+        ("RI(unreader)", lambda L: RI_and(_C(L), L.unreader, L.st)),
+        ("unreader-buffer-empty", lambda L: u_buf(_C(L), L.unreader, L.st).length() == 0),
+        ("rest-not-None", lambda L: _opt(L.rest)[0]),
+        ("rest==T[end:pos)", lambda L: is_T(_opt(L.rest)[1], _g(L, "chunk_ds") + _g(L, "chunk_size"), u_pos(_C(L), L.unreader, L.st))),
+        ("pos>=end", lambda L: u_pos(_C(L), L.unreader, L.st) >= _g(L, "chunk_ds") + _g(L, "chunk_size")),
+        ("ghost-fixed", lambda L: And(_g(L, "chunk_ds") == _ge(L, "chunk_ds"), _g(L, "chunk_size") == _ge(L, "chunk_size"),
+                                      _g(L, "y_pos") == _ge(L, "y_pos"))),
+    ])}
+
+
+def _opt(v):
+    """(is-not-None, inner) of a possibly-optional value"""
+    if isinstance(v, SOpt):
+        return v.some, v.inner
+    if isinstance(v, SNone):
+        return FALSE, SStr([], False)
+    return TRUE, v
+
+
+def _g(L, k):
+    v = L.st.ghost.get(k)
+    if v is None:
+        raise KeyError(k)
+    return v
+
+
+def _ge(L, k):
+    v = L.entry.ghost.get(k)
+    if v is None:
+        raise KeyError(k)
+    return v
